@@ -14,6 +14,7 @@ import (
 	"os"
 	"os/exec"
 	"path/filepath"
+	"reflect"
 	"sort"
 	"strconv"
 	"strings"
@@ -255,4 +256,117 @@ func trunc(b []byte, n int) string {
 		return string(b[:n]) + fmt.Sprintf("…(%d bytes)", len(b))
 	}
 	return string(b)
+}
+
+// refChainEnds: a $ref whose target is again (only) a $ref is followed; a chain that comes back to itself never
+// reaches a schema.
+func refChainEnds(doc any, ref string) bool {
+	seen := map[string]bool{}
+	for i := 0; i < 32; i++ {
+		if seen[ref] {
+			return false
+		}
+		seen[ref] = true
+		tgt, err := resolvePointer(doc, ref)
+		if err != nil {
+			return true // reported as unresolvable elsewhere
+		}
+		m, ok := tgt.(map[string]any)
+		if !ok {
+			return true
+		}
+		next, isRef := m["$ref"].(string)
+		if !isRef || m["properties"] != nil {
+			return true
+		}
+		ref = next
+	}
+	return false
+}
+
+// jsonNamesOf: the member names encoding/json uses for a struct type, read off json.Marshal of a populated value.
+func (r *runner) jsonNamesOf(td *TD) []string {
+	var t = rtype(td)
+	vg := &vgen{r: r.r, cap: 6}
+	val, _ := vg.populate(td, t, 1)
+	b, err := json.Marshal(val.Interface())
+	if err != nil {
+		return nil
+	}
+	m, _ := parseJSON(b).(map[string]any)
+	return sortedKeys(m)
+}
+
+type refMismatch struct {
+	At, Ref    string
+	Got, Want  []string
+	GoType     string
+	Unresolved bool
+}
+
+// refTargets walks the type and the schema in parallel: wherever the schema of a struct-typed position is a $ref, the
+// target must be the schema of THAT struct type (it declares exactly the type's JSON member names) — resolving to
+// some schema is not enough. Plain tags only (no embedded fields, no `-,`): used for fragment types.
+func (r *runner) refTargets(doc any, td *TD, node any, at string, visited map[string]bool, out *[]refMismatch) {
+	m, ok := node.(map[string]any)
+	if !ok || td == nil || len(*out) > 0 {
+		return
+	}
+	if l, ok := m["anyOf"].([]any); ok && len(l) > 0 {
+		r.refTargets(doc, td, l[0], at+"/anyOf/0", visited, out)
+		return
+	}
+	switch td.K {
+	case "ptr":
+		r.refTargets(doc, td.E, node, at, visited, out)
+	case "slice", "array":
+		r.refTargets(doc, td.E, m["items"], at+"/items", visited, out)
+	case "map":
+		r.refTargets(doc, td.E, m["additionalProperties"], at+"/additionalProperties", visited, out)
+	case "struct", "named":
+		fields := td.F
+		if td.K == "named" {
+			fields = registryEnv[td.Name].F
+		}
+		if ref, isRef := m["$ref"].(string); isRef {
+			tgt, err := resolvePointer(doc, ref)
+			if err != nil {
+				return // reported by the resolution oracle
+			}
+			tm, _ := tgt.(map[string]any)
+			var got []string
+			if tm != nil {
+				if _, again := tm["$ref"].(string); again && tm["properties"] == nil {
+					*out = append(*out, refMismatch{At: at, Ref: ref, Got: []string{"(another $ref)"}, Want: r.jsonNamesOf(td), GoType: rtype(td).String()})
+					return
+				}
+				ps, _ := tm["properties"].(map[string]any)
+				got = sortedKeys(ps)
+			}
+			want := r.jsonNamesOf(td)
+			if !reflect.DeepEqual(got, want) && !(len(got) == 0 && len(want) == 0) {
+				*out = append(*out, refMismatch{At: at, Ref: ref, Got: got, Want: want, GoType: rtype(td).String()})
+				return
+			}
+			if visited[ref] {
+				return
+			}
+			visited[ref] = true
+			m = tm
+			at = ref
+		}
+		ps, _ := m["properties"].(map[string]any)
+		for _, f := range fields {
+			if f.Tag == "-" {
+				continue
+			}
+			name := strings.Split(f.Tag, ",")[0]
+			if name == "" {
+				name = f.Go
+			}
+			if child, ok := ps[name]; ok {
+				r.refTargets(doc, f.T, child, at+"/properties/"+name, visited, out)
+			}
+		}
+	}
 }
